@@ -638,6 +638,7 @@ fn dump_body<'tcx>(tcx: TyCtxt<'tcx>, did: DefId, out: &mut String) {
                     AssertKind::RemainderByZero(a) => ("rem0".to_string(), vec![cx.operand(a)]),
                     AssertKind::MisalignedPointerDereference { .. } => ("misaligned".to_string(), vec![]),
                     AssertKind::NullPointerDereference => ("nullptr".to_string(), vec![]),
+                    AssertKind::ResumedAfterReturn(..) | AssertKind::ResumedAfterPanic(..) => ("resumed".to_string(), vec![]),
                     _ => ("other".to_string(), vec![]),
                 };
                 write!(
